@@ -643,3 +643,15 @@ func OnceValues[T1, T2 any](f func() (T1, T2)) func() (T1, T2) {
 		return f()
 	})
 }
+
+// SendTo and TrySender fix the element type from the channel alone, so that
+// the value undergoes the ordinary assignment conversion (a concrete value
+// sent on a channel of interface type), which type inference over both
+// arguments would reject.
+func SendTo[T any](ch chan<- T) func(T) {
+	return func(v T) { Send(ch, v) }
+}
+
+func TrySender[T any](ch chan<- T) func(T) bool {
+	return func(v T) bool { return TrySend(ch, v) }
+}
